@@ -5,7 +5,7 @@ Functions under contract (sidecars in contracts/c_shared.py, contracts/c_kernels
                          Vfunc, Vfunc_beta, Mfunc1D..5D (inlined into the kernel obligations against the documented formulas)
   tridiag.c            : tridiag_premalloc (loop invariants, ghost pivot history; + lemma rows), tridiag
   integration{1..5}D.c : 15 per-axis kernels + 5 precomputed-coefficient kernels (per-line contract, frame, bounds)
-  Integration.py       : constant-parameter vs time-dependent dispatch and per-step wiring of one_pop..five_pops (E2)
+  Integration.py       : per-step wiring of the time-dependent drivers one_pop..five_pops (E2: one step, every parameter a function of time)
   integration_c.pyx    : argument order of every wrapper against the C prototype (text front end)
 Bounded stand-in (props/bounded_C02.py): dense-matrix reference at round-off level for every kernel and driver.
 """
@@ -47,6 +47,8 @@ def tasks(tier):
     from contracts.c_kernels import kernel_list
     for relpath, fname in kernel_list():
         ts.append(Task('props.C02:t_kernel', name='C02/kernel.' + fname, relpath=relpath, fname=fname, timeout=1200))
+    for K, fz in ((1, ()), (2, ()), (2, (1,)), (3, ()), (3, (2,)), (4, ()), (4, (4,)), (5, ()), (5, (3,))):
+        ts.append(Task('props.wire:run', name='C02/wire.driver-step.%d.%s' % (K, ''.join(map(str, fz)) or 'none'), fname='c02_driver_step', kwargs=dict(K=K, frozen=fz), timeout=600))
     ts.append(Task('props.C02:t_pyx', name='C02/pyx-argument-order', timeout=120))
     ts += bounded_tasks('C02', tier)
     return ts
